@@ -305,3 +305,314 @@ Qed.
 
 Theorem false_is_absent o values cd : resolve_input o GFalse values cd = Ok RAbsent.
 Proof. reflexivity. Qed.
+
+(* ================================================================== determinism: the frame of a template *)
+Definition template_refs (o : outarg) : list (list ascii) :=
+  match o_template o with TOne t => inp_fields t | TMany ts => flat_map inp_fields ts end.
+
+Lemma collect_frame names v1 v2 : (forall n, In n names -> lookup n v1 = lookup n v2) ->
+  forall d ft, collect names v1 d ft = collect names v2 d ft.
+Proof.
+  induction names as [|n r IH]; intros H d ft; [reflexivity|]. cbn [collect].
+  rewrite <- (H n (or_introl eq_refl)).
+  assert (Hr : forall m, In m r -> lookup m v1 = lookup m v2) by (intros m Hm; apply H; now right).
+  destruct (lookup n v1) as [[|[s|z|ng m k|p]|l]|]; try reflexivity; try (now apply IH).
+  destruct ft; [reflexivity|now apply IH].
+Qed.
+
+Lemma single_frame multi keep t v1 v2 : (forall n, In n (inp_fields t) -> lookup n v1 = lookup n v2) ->
+  single_template_formatting multi keep t v1 = single_template_formatting multi keep t v2.
+Proof.
+  intros H. unfold single_template_formatting. destruct (inp_fields t) as [|n r] eqn:E; [reflexivity|].
+  now rewrite (collect_frame (n :: r) v1 v2 H).
+Qed.
+
+Lemma mapM_ext {A B} (f g : A -> res B) l : (forall x, In x l -> f x = g x) -> mapM f l = mapM g l.
+Proof.
+  induction l as [|x l IH]; intros H; [reflexivity|]. cbn. rewrite (H x (or_introl eq_refl)).
+  rewrite IH; [reflexivity|]. intros y Hy. apply H. now right.
+Qed.
+
+Theorem template_formatting_frame o v1 v2 :
+  (forall n, In n (template_refs o) -> lookup n v1 = lookup n v2) ->
+  template_formatting o v1 = template_formatting o v2.
+Proof.
+  unfold template_refs, template_formatting. destruct (o_template o) as [t|ts]; intros H.
+  - now apply single_frame.
+  - rewrite (mapM_ext _ (fun t => single_template_formatting (o_multi o) (o_keep o) t v2) ts); [reflexivity|].
+    intros t Ht. apply single_frame. intros n Hn. apply H. apply in_flat_map. now exists t.
+Qed.
+
+(* the resolved path is a function of the job directory and of the values of the referenced fields only *)
+Theorem resolve_deterministic o g v1 v2 cd :
+  (forall n, In n (template_refs o) -> lookup n v1 = lookup n v2) ->
+  resolve_output o v1 cd = resolve_output o v2 cd /\ resolve_input o g v1 cd = resolve_input o g v2 cd.
+Proof.
+  intros H. assert (E : resolve_output o v1 cd = resolve_output o v2 cd).
+  { unfold resolve_output. now rewrite (template_formatting_frame o v1 v2 H). }
+  split; [exact E|]. destruct g; cbn; auto.
+Qed.
+
+(* ================================================================== keep_extension = False: the extension does not matter *)
+Definition ft_rel (a b : option (list ascii * list ascii)) : Prop :=
+  match a, b with
+  | None, None => True
+  | Some (n1, f1), Some (n2, f2) => n1 = n2 /\ file_stem_path f1 = file_stem_path f2
+  | _, _ => False
+  end.
+
+(* two input assignments that differ at most in the extensions of path-valued fields *)
+Definition same_up_to_ext (v1 v2 : env) : Prop :=
+  forall k, match lookup k v1, lookup k v2 with
+            | Some (VAtom (APath f1)), Some (VAtom (APath f2)) => file_stem_path f1 = file_stem_path f2
+            | a, b => a = b
+            end.
+
+Definition collected_rel (a b : res collected) : Prop :=
+  match a, b with
+  | Ok CNone, Ok CNone => True
+  | Ok (CDict d1 f1), Ok (CDict d2 f2) => d1 = d2 /\ ft_rel f1 f2
+  | Err e1, Err e2 => e1 = e2
+  | _, _ => False
+  end.
+
+Lemma collect_rel names v1 v2 : same_up_to_ext v1 v2 ->
+  forall d ft1 ft2, ft_rel ft1 ft2 -> collected_rel (collect names v1 d ft1) (collect names v2 d ft2).
+Proof.
+  intros Hv. induction names as [|n r IH]; intros d ft1 ft2 Hft; cbn [collect].
+  - cbn. auto.
+  - specialize (Hv n).
+    destruct (lookup n v1) as [[|[s1|z1|ng1 m1 k1|p1]|l1]|], (lookup n v2) as [[|[s2|z2|ng2 m2 k2|p2]|l2]|];
+      try discriminate; try (inversion Hv; subst); try (cbn; auto; fail); try (now apply IH).
+    destruct ft1 as [[a1 b1]|], ft2 as [[a2 b2]|]; cbn in Hft; try contradiction; cbn; auto.
+    apply IH. cbn. auto.
+Qed.
+
+Lemma element_formatting_dropped t d ft1 ft2 : ft_rel ft1 ft2 ->
+  element_formatting t d ft1 false = element_formatting t d ft2 false.
+Proof.
+  destruct ft1 as [[n1 f1]|], ft2 as [[n2 f2]|]; cbn; try contradiction; [|reflexivity].
+  intros [-> E]. unfold element_formatting. now rewrite E.
+Qed.
+
+Lemma single_dropped multi t v1 v2 : same_up_to_ext v1 v2 ->
+  single_template_formatting multi false t v1 = single_template_formatting multi false t v2.
+Proof.
+  intros Hv. unfold single_template_formatting. destruct (inp_fields t) as [|n r]; [reflexivity|].
+  pose proof (collect_rel (n :: r) v1 v2 Hv [] None None I) as H.
+  destruct (collect (n :: r) v1 [] None) as [[|d1 f1]|e1], (collect (n :: r) v2 [] None) as [[|d2 f2]|e2];
+    cbn in H; try contradiction; cbn [bind]; try reflexivity; [|now subst].
+  destruct H as [<- Hf].
+  rewrite (element_formatting_dropped t d1 f1 f2 Hf).
+  destruct (multi && existsb (fun kv => is_list (snd kv)) d1); [|reflexivity].
+  destruct (list_keys d1) as [|k0 ks]; [reflexivity|].
+  match goal with |- (if ?c then _ else _) = _ => destruct c end; [reflexivity|].
+  rewrite (mapM_ext _ (fun ii => element_formatting t (pick ii d1) f2 false)); [reflexivity|].
+  intros; now apply element_formatting_dropped.
+Qed.
+
+(* with keep_extension = False the resolved path does not depend on the extension of the input file *)
+Theorem ext_dropped o v1 v2 cd :
+  o_keep o = false -> same_up_to_ext v1 v2 -> resolve_output o v1 cd = resolve_output o v2 cd.
+Proof.
+  intros Hk Hv. unfold resolve_output, template_formatting. rewrite Hk. destruct (o_template o) as [t|ts].
+  - now rewrite (single_dropped (o_multi o) t v1 v2 Hv).
+  - rewrite (mapM_ext _ (fun t => single_template_formatting (o_multi o) false t v2) ts); [reflexivity|].
+    intros t _. now apply single_dropped.
+Qed.
+
+(* ================================================================== keep_extension = True: where the extension goes *)
+Lemma lookup_set_same k v d : lookup k (dict_set k v d) = Some v.
+Proof.
+  induction d as [|[k' v'] d IH]; cbn.
+  - assert (la_eqb k k = true) as -> by now apply la_eqb_spec. reflexivity.
+  - destruct (la_eqb k k') eqn:E; cbn.
+    + assert (la_eqb k k = true) as -> by now apply la_eqb_spec. reflexivity.
+    + now rewrite E.
+Qed.
+
+Lemma lookup_set_other k k' v d : k' <> k -> lookup k' (dict_set k v d) = lookup k' d.
+Proof.
+  intros Hne. induction d as [|[k2 v2] d IH]; cbn.
+  - destruct (la_eqb k' k) eqn:E; [apply la_eqb_spec in E; contradiction|reflexivity].
+  - destruct (la_eqb k k2) eqn:E; cbn.
+    + apply la_eqb_spec in E. subst k2.
+      destruct (la_eqb k' k) eqn:E2; [apply la_eqb_spec in E2; contradiction|reflexivity].
+    + now rewrite IH.
+Qed.
+
+Lemma render_pieces_app d ps qs :
+  render_pieces d (ps ++ qs) =
+  bind (render_pieces d ps) (fun a => bind (render_pieces d qs) (fun b => Ok (a ++ b))).
+Proof.
+  induction ps as [|p ps IH]; cbn.
+  - destruct (render_pieces d qs); reflexivity.
+  - destruct (render_piece d p) as [a|e]; cbn; [|reflexivity]. rewrite IH.
+    destruct (render_pieces d ps) as [x|e]; cbn; [|reflexivity].
+    destruct (render_pieces d qs) as [y|e]; cbn; [|reflexivity]. now rewrite app_assoc.
+Qed.
+
+Definition piece_names (ps : list piece) : list (list ascii) :=
+  flat_map (fun p => match p with Field n _ => [n] | Lit _ => [] end) ps.
+
+Lemma render_piece_agree d1 d2 p :
+  (forall k, In k (piece_names [p]) -> lookup k d1 = lookup k d2) -> render_piece d1 p = render_piece d2 p.
+Proof.
+  destruct p as [c|n sp]; [reflexivity|]. intros H. cbn in H. unfold render_piece.
+  rewrite (H n (or_introl eq_refl)). reflexivity.
+Qed.
+
+Lemma render_pieces_agree d1 d2 ps :
+  (forall k, In k (piece_names ps) -> lookup k d1 = lookup k d2) -> render_pieces d1 ps = render_pieces d2 ps.
+Proof.
+  induction ps as [|p ps IH]; intros H; [reflexivity|]. cbn [render_pieces].
+  rewrite (render_piece_agree d1 d2 p).
+  - rewrite IH; [reflexivity|]. intros k Hk. apply H. unfold piece_names in *. cbn. apply in_or_app. now right.
+  - intros k Hk. apply H. unfold piece_names in *. cbn in *. apply in_or_app. left. now rewrite app_nil_r in Hk.
+Qed.
+
+(* the tokenizer on a template that ends with "{n}" *)
+Lemma scan_word_field n : all_word n = true -> forall acc rest out,
+  scan (InField acc) (n ++ rbrace :: rest) out = scan Top rest (mk_field (rev acc ++ n) :: out).
+Proof.
+  induction n as [|c n IH]; intros Hw acc rest out.
+  - cbn. now rewrite app_nil_r.
+  - cbn in Hw. apply andb_true_iff in Hw. destruct Hw as [Hc Hw]. cbn [app scan].
+    assert (Ascii.eqb c rbrace = false) as ->.
+    { destruct (Ascii.eqb c rbrace) eqn:E; [|reflexivity]. apply Ascii.eqb_eq in E. subst. discriminate. }
+    assert (Ascii.eqb c lbrace = false) as ->.
+    { destruct (Ascii.eqb c lbrace) eqn:E; [|reflexivity]. apply Ascii.eqb_eq in E. subst. discriminate. }
+    rewrite (IH Hw). cbn [rev]. now rewrite <- app_assoc.
+Qed.
+
+Lemma scan_word_top n : all_word n = true -> forall rest out,
+  scan Top (n ++ rest) out = scan Top rest (rev (map Lit n) ++ out).
+Proof.
+  induction n as [|c n IH]; intros Hw rest out; [reflexivity|].
+  cbn in Hw. apply andb_true_iff in Hw. destruct Hw as [Hc Hw]. cbn [app scan].
+  assert (Ascii.eqb c rbrace = false) as ->.
+  { destruct (Ascii.eqb c rbrace) eqn:E; [|reflexivity]. apply Ascii.eqb_eq in E. subst. discriminate. }
+  assert (Ascii.eqb c lbrace = false) as ->.
+  { destruct (Ascii.eqb c lbrace) eqn:E; [|reflexivity]. apply Ascii.eqb_eq in E. subst. discriminate. }
+  rewrite (IH Hw). cbn [map rev]. now rewrite <- app_assoc.
+Qed.
+
+Lemma split_colon_word n : all_word n = true -> forall acc, split_colon n acc = (rev acc ++ n, None).
+Proof.
+  induction n as [|c n IH]; intros Hw acc; cbn.
+  - now rewrite app_nil_r.
+  - cbn in Hw. apply andb_true_iff in Hw. destruct Hw as [Hc Hw].
+    assert (Ascii.eqb c ":" = false) as ->.
+    { destruct (Ascii.eqb c ":") eqn:E; [|reflexivity]. apply Ascii.eqb_eq in E. subst. discriminate. }
+    rewrite (IH Hw). cbn. now rewrite <- app_assoc.
+Qed.
+
+Lemma mk_field_word n : all_word n = true -> mk_field n = Field n None.
+Proof. intros Hw. unfold mk_field. now rewrite (split_colon_word n Hw []). Qed.
+
+Lemma scan_ends_with_field n : all_word n = true -> n <> [] ->
+  forall t st out ps, scan st (t ++ field_ref n) out = Ok ps -> exists ps', ps = ps' ++ [Field n None].
+Proof.
+  intros Hw Hne. induction t as [|c t IH]; intros st out ps H.
+  - cbn [app] in H. unfold field_ref in H. destruct n as [|c0 n0]; [congruence|].
+    assert (Hc0 : is_word c0 = true /\ all_word n0 = true) by (cbn in Hw; now apply andb_true_iff in Hw).
+    destruct Hc0 as [Hc0 Hn0].
+    assert (Hr : Ascii.eqb c0 rbrace = false).
+    { destruct (Ascii.eqb c0 rbrace) eqn:E; [|reflexivity]. apply Ascii.eqb_eq in E. subst. discriminate. }
+    assert (Hl : Ascii.eqb c0 lbrace = false).
+    { destruct (Ascii.eqb c0 lbrace) eqn:E; [|reflexivity]. apply Ascii.eqb_eq in E. subst. discriminate. }
+    destruct st as [| |acc|].
+    + (* Top *) cbn [scan app] in H. change (Ascii.eqb lbrace lbrace) with true in H. cbn iota in H.
+      rewrite Hl, Hr in H.
+      change ((c0 :: n0) ++ [rbrace]) with (c0 :: (n0 ++ rbrace :: [])) in H.
+      rewrite (scan_word_field n0 Hn0 [c0] [] out) in H. cbn [rev app scan] in H.
+      rewrite (mk_field_word (c0 :: n0) Hw) in H. inversion H. cbn [rev]. now exists (rev out).
+    + (* AfterOpen: "{{" then "n}" -> a lone "}" *)
+      cbn [scan app] in H. change (Ascii.eqb lbrace lbrace) with true in H. cbn iota in H.
+      rewrite Hl, Hr in H. rewrite (scan_word_top n0 Hn0) in H. cbn in H. discriminate.
+    + cbn [scan app] in H. change (Ascii.eqb lbrace rbrace) with false in H.
+      change (Ascii.eqb lbrace lbrace) with true in H. cbn iota in H. discriminate.
+    + cbn [scan app] in H. change (Ascii.eqb lbrace rbrace) with false in H. cbn iota in H. discriminate.
+  - cbn [app scan] in H.
+    destruct st as [| |acc|].
+    + destruct (Ascii.eqb c lbrace); [now apply IH in H|]. destruct (Ascii.eqb c rbrace); now apply IH in H.
+    + destruct (Ascii.eqb c lbrace); [now apply IH in H|]. destruct (Ascii.eqb c rbrace); now apply IH in H.
+    + destruct (Ascii.eqb c rbrace); [now apply IH in H|]. destruct (Ascii.eqb c lbrace); [discriminate|now apply IH in H].
+    + destruct (Ascii.eqb c rbrace); [now apply IH in H|discriminate].
+Qed.
+
+Lemma ends_with_app l suf : ends_with l suf = true -> exists pre, l = pre ++ suf.
+Proof.
+  induction l as [|c l IH]; cbn [ends_with].
+  - destruct (la_eqb [] suf) eqn:E; intros H; [|discriminate]. apply la_eqb_spec in E. subst. now exists [].
+  - destruct (la_eqb (c :: l) suf) eqn:E; intros H.
+    + apply la_eqb_spec in E. subst. now exists [].
+    + destruct (IH H) as [pre ->]. now exists (c :: pre).
+Qed.
+
+Fixpoint count_field (n : list ascii) (ps : list piece) : nat :=
+  match ps with
+  | [] => 0
+  | Field m _ :: r => (if la_eqb m n then 1 else 0) + count_field n r
+  | Lit _ :: r => count_field n r
+  end.
+
+Lemma count_field_app n ps qs : count_field n (ps ++ qs) = count_field n ps + count_field n qs.
+Proof. induction ps as [|[c|m sp] ps IH]; cbn; [reflexivity|exact IH|rewrite IH; lia]. Qed.
+
+Lemma count_zero_not_in n ps : count_field n ps = 0 -> ~ In n (piece_names ps).
+Proof.
+  induction ps as [|[c|m sp] ps IH]; cbn; [tauto|exact IH|].
+  destruct (la_eqb m n) eqn:E; [discriminate|]. intros H [->|Hin]; [|now apply IH].
+  assert (la_eqb n n = true) by now apply la_eqb_spec. congruence.
+Qed.
+
+(* str.format with the trailing field's value extended = the formatted text extended *)
+Lemma format_trailing_field t n d x y :
+  all_word n = true -> n <> [] ->
+  ends_with t (field_ref n) = true ->
+  (forall ps, tokenize t = Ok ps -> count_field n ps <= 1) ->
+  py_format t (dict_set n (VAtom (AStr (x ++ y))) d) =
+  bind (py_format t (dict_set n (VAtom (AStr x)) d)) (fun s => Ok (s ++ y)).
+Proof.
+  intros Hw Hne He Hc. unfold py_format. destruct (tokenize t) as [ps|e] eqn:Et; [|reflexivity]. cbn [bind].
+  destruct (ends_with_app _ _ He) as [pre ->].
+  destruct (scan_ends_with_field n Hw Hne pre Top [] ps Et) as [ps' ->].
+  specialize (Hc _ eq_refl). rewrite count_field_app in Hc. cbn in Hc.
+  assert (la_eqb n n = true) as Enn by now apply la_eqb_spec. rewrite Enn in Hc.
+  assert (Hz : count_field n ps' = 0) by lia. apply count_zero_not_in in Hz.
+  rewrite !render_pieces_app.
+  rewrite (render_pieces_agree (dict_set n (VAtom (AStr (x ++ y))) d) (dict_set n (VAtom (AStr x)) d) ps').
+  2:{ intros k Hk. assert (k <> n) by (intros ->; contradiction). now rewrite !lookup_set_other. }
+  destruct (render_pieces (dict_set n (VAtom (AStr x)) d) ps') as [a|e]; cbn [bind]; [|reflexivity].
+  cbn [render_pieces render_piece]. destruct n as [|c0 n0]; [congruence|].
+  destruct (all_digits (c0 :: n0)); [reflexivity|]. rewrite Hw. cbn [negb].
+  rewrite !lookup_set_same. cbn. now rewrite !app_nil_r, app_assoc.
+Qed.
+
+Lemma bind_ok_id {A} (r : res A) : bind r (fun s => Ok s) = r.
+Proof. now destruct r. Qed.
+
+Lemma dict_set_set k v1 v2 d : dict_set k v2 (dict_set k v1 d) = dict_set k v2 d.
+Proof.
+  induction d as [|[k' v'] d IH]; cbn.
+  - assert (la_eqb k k = true) as -> by now apply la_eqb_spec. reflexivity.
+  - destruct (la_eqb k k') eqn:E; cbn.
+    + assert (la_eqb k k = true) as -> by now apply la_eqb_spec. reflexivity.
+    + now rewrite E, IH.
+Qed.
+
+(* keep_extension = True, the file has an extension e and the template has no '.' of its own:
+   the result is the keep_extension = False result followed by "." e *)
+Theorem ext_kept t d n f e :
+  all_word n = true -> n <> [] ->
+  file_ext f = Some e -> has_dot t = false ->
+  (forall ps, tokenize t = Ok ps -> count_field n ps <= 1) ->
+  element_formatting t d (Some (n, f)) true =
+  bind (element_formatting t d (Some (n, f)) false) (fun s => Ok (s ++ "." :: e)).
+Proof.
+  intros Hw Hne He Hd Hc. unfold element_formatting. rewrite He, Hd. cbn [negb dot_join].
+  destruct (ends_with t (field_ref n)) eqn:Ee.
+  - rewrite !dict_set_set. now apply format_trailing_field.
+  - now rewrite bind_ok_id.
+Qed.
